@@ -3,3 +3,5 @@
 pub mod domain;
 pub mod fmts;
 pub mod probe;
+pub mod progs;
+pub mod progs_main;
